@@ -730,7 +730,6 @@ var ruleContracts = &core.Rule{ID: "R04.5", Min: 8, Slow: true,
 		}
 	}}
 
-
 // putsParam: g hands its parameter idx to (*sync.Pool).Put.
 func putsParam(g *ssa.Function, idx int) bool {
 	for _, ci := range core.Calls(g) {
